@@ -39,7 +39,7 @@ def newest(paths):
 def ocaml_build():
     odir = os.path.join(CACHE, "ocaml")
     os.makedirs(odir, exist_ok=True)
-    srcs = glob.glob(os.path.join(COQ, "theories", "*.vo")) + \
+    srcs = glob.glob(os.path.join(COQ, "theories", "*.vo")) + glob.glob(os.path.join(COQ, "theories", "Spec", "*.vo")) + \
         [os.path.join(COQ, "extraction", "Extract.v"), os.path.join(VERIF, "ocaml", "model_run.ml")]
     if os.path.exists(MODEL_RUN) and os.path.getmtime(MODEL_RUN) >= newest(srcs):
         return
@@ -67,7 +67,7 @@ def build(profiles=("dev",), coq=True):
                 ok = False
                 msg = p.stdout[-6000:]
         # the model runner only needs the model files; build it even if a proof broke
-        p2 = coq_make("theories/L2.vo")
+        p2 = coq_make("model")
         if p2.returncode != 0:
             return False, "model does not compile:\n" + p2.stdout[-4000:]
         ocaml_build()
